@@ -13,13 +13,13 @@ import (
 )
 
 type FnResult struct {
-	Key         string
-	Obls        []*Obligation
-	Notes       []string
-	Trusted     []string
-	Err         error
-	Abstracted  bool
-	NumBlocks   int
+	Key        string
+	Obls       []*Obligation
+	Notes      []string
+	Trusted    []string
+	Err        error
+	Abstracted bool
+	NumBlocks  int
 }
 
 func clauseProps(fc *FuncContract, c *Clause) []string {
@@ -97,7 +97,11 @@ func VerifyFuncX(P *Program, DB *ContractDB, fc *FuncContract, safety bool, excu
 	blob := contractText(DB, fc)
 	for _, ax := range DB.Axioms {
 		if !axiomRelevant(DB, ax, blob) {
-			continue
+			// a ground fact about library functions (no spec function in it) belongs to the functions of its own package
+			own := fn.Pkg != nil && fn.Pkg.Pkg.Path() == DB.LemmaPkg[ax.Name]
+			if !own || axiomMentionsSpec(DB, ax) {
+				continue
+			}
 		}
 		if pk := P.ByPath[DB.LemmaPkg[ax.Name]]; pk != nil {
 			envAx.pkg = pk.Types
@@ -365,7 +369,6 @@ func VerifyLemma(P *Program, DB *ContractDB, l *Clause) *FnResult {
 	return res
 }
 
-
 // contractText collects the expression texts of a contract, with the bodies of the predicates it (transitively) uses.
 func contractText(DB *ContractDB, fc *FuncContract) string {
 	var sb strings.Builder
@@ -400,6 +403,15 @@ func contractText(DB *ContractDB, fc *FuncContract) string {
 }
 
 // axiomRelevant: an axiom is included only where one of the spec functions it constrains is mentioned.
+func axiomMentionsSpec(DB *ContractDB, ax *Clause) bool {
+	for name := range DB.Specs {
+		if strings.Contains(ax.Expr, name+"(") {
+			return true
+		}
+	}
+	return false
+}
+
 func axiomRelevant(DB *ContractDB, ax *Clause, blob string) bool {
 	for name := range DB.Specs {
 		if strings.Contains(ax.Expr, name+"(") && strings.Contains(blob, name+"(") {
